@@ -87,6 +87,12 @@ PROPS = {
         "explanation": "Kani (complete: loop-free, full domain of every primitive) on the real macro-generated AsValue impls: kind, numeric value and signedness are preserved; Verus: Object::find depends on a document only through Object::get (its contract is stated over obj_get), and solve_expression's postcondition res == sem3(e, ids, document.model()) makes the verdict a function of the document model alone",
         "assumptions": ["container adapters (Vec, HashSet, HashMap) and the serde_yaml / serde_json Object/AsValue impls are not under contract (iterator adapters and external types)"],
     },
+    "C12": {
+        "units": {"solver": ["solve_expression", "solve", "match_all", "match_of", "search", "slow_aho", "matches"], "paths": ["ObjectV::find", "ObjectVS::find"], "frame": FRAME_FNS},
+        "explanation": "the part of the property a function contract can express: every matching function is proved EQUAL to a mathematical function of its arguments - solve_expression(e, ids, doc) == sem3(e, ids, doc.model()), matches == (sem3 == True), find == path_lookup - so a verdict cannot depend on what was matched before, on how often it is repeated or on anything but (expression, identifier table, document model); the functions take the rule by shared reference, so matching cannot modify it (Rust's borrow rules; Expression has no interior mutability of its own); lemma_frame adds that the verdict only depends on the fields the rule asks for",
+        "assumptions": ["other processes / threads: not expressible as a function contract (no claim); regex and aho-corasick keep internal caches behind shared references: assumed not to affect results (their is_match / find contracts are uninterpreted FUNCTIONS of the haystack)",
+                        "loading is deterministic only up to what parse_mapping's slices cover; optimising is NOT deterministic: see known finding C12-KF1"],
+    },
     "C13": {
         "units": {"solver": ["validate", "matches", "solve"]},
         "explanation": "validate() is proved to return Ok exactly when every true_positives example is a mapping on which the rule's verdict (the same spec function matches() ensures) is true and every true_negatives example one on which it is false; its unwrap-free body cannot panic; optimised or not is irrelevant (any well-formed detection)",
